@@ -38,6 +38,13 @@ FLAVOURS['miri'] = {
     'bin': 'bin/miri_axv',
 }
 
+FLAVOURS['prodsrv'] = {
+    # prod worker plus the shipped server binary (crates/axmos-db, bin axmos-server), both from /repo's working tree
+    'cmd': ['bash', '-c', 'cargo build --release --offline --bin axv --target-dir ../target/prod && cargo build --release --offline --manifest-path /repo/Cargo.toml -p axmosdb --bin axmos-server --target-dir ../target/server'],
+    'bin': 'target/prod/release/axv',
+    'run_env': {'AXV_SERVER_BIN': '/verif/target/server/release/axmos-server'},
+}
+
 EXPLORATION_ASSUMPTIONS = [
     'the reference model (harness/src/model.rs) is the SQL semantics the property refers to',
     'release-equivalent build (debug assertions and overflow checks off), feature verif on',
@@ -188,14 +195,17 @@ CHECKS['C20'] = {
     'rule': 'structured generator over every Request / Response variant and field (empty / huge / non-ASCII strings, 0..40 columns x 0..2000 rows, NaN payloads, u64 extremes): decode(encode(m)) == m and '
             'read_message(write_message(b)) == b; frame sizes 0, 1, 16 MiB - 1, 16 MiB, 16 MiB + 1; garbage: random bytes, valid header + random tail, truncations, extreme length/count fields, bit flips, fed to '
             'Request::from_bytes, Response::from_bytes and read_message under catch_unwind with a counting global allocator (largest single allocation request must stay within 64 x input + 64 KiB; 17 MiB for the frame reader). '
-            'Distinct = hash of the encoded bytes; every case is non-trivial.',
-    'legs': {'quick': [{'flavour': 'sysalloc', 'shards': 16}], 'thorough': [{'flavour': 'sysalloc', 'shards': 16}]},
+            'Distinct = hash of the encoded bytes; every case is non-trivial. Server leg: the shipped axmos-server binary over loopback; a twin database in-process executes the same statements and the responses '
+            'must be what the library returns rendered by the rule of query_result_to_response; hostile connections (7 classes) must end closed or answered with a well-formed frame, followed by a Ping on the long-lived connection, a process-alive check and a resident-set bound.',
+    'legs': {'quick': [{'flavour': 'sysalloc', 'shards': 16}, {'flavour': 'prodsrv', 'shards': 4, 'engine': 'C20S', 'timeout': 1200}],
+             'thorough': [{'flavour': 'sysalloc', 'shards': 16}, {'flavour': 'prodsrv', 'shards': 16, 'engine': 'C20S', 'timeout': 3000}]},
     'min_evaluations': {'quick': 200000, 'thorough': 3000000},
-    'min_counters': {'quick': {'alloc_accounted_decodes': 300000, 'frame_boundary_cases': 5}, 'thorough': {'alloc_accounted_decodes': 5000000}},
+    'min_counters': {'quick': {'alloc_accounted_decodes': 300000, 'frame_boundary_cases': 5, 'server.hostile_connections': 200, 'server.liveness_pings': 200, 'server.sql_responses_checked': 60},
+                     'thorough': {'alloc_accounted_decodes': 5000000, 'server.hostile_connections': 15000, 'server.sql_responses_checked': 3000}},
     'assumptions': ['the engine is built with feature verif_sysalloc so that the harness owns the global allocator', 'Response has no PartialEq: values are compared through their Debug rendering (f64 through to_bits)'],
-    'technique': 'round-trip monitor + decoder fuzzing under catch_unwind with a counting allocator (allocation-bound oracle); process deaths attributed through declared intents',
+    'technique': 'round-trip monitor + decoder fuzzing under catch_unwind with a counting allocator (allocation-bound oracle); differential monitor of the real server binary over loopback against an in-process twin, with liveness / RSS monitors after hostile connections; process deaths attributed through declared intents',
     'level_text': '128k (quick) / 1.9M (thorough) structured messages round-trip through encode/frame/decode, and 192k / 3.2M hostile byte strings go through all three decoders; none may panic, kill the process, or request more memory than a small multiple of the input.',
-    'level_note': 'The server binary (accept loop, query_result_to_response) is exercised by the server leg when built; hang detection relies on the worker watchdog.',
+    'level_note': 'The server leg drives the real accept loop, request dispatch, sessions and row rendering; a connection the server merely closes counts as a protocol error answer. Hang detection relies on socket timeouts (20 s per request) and the worker watchdog.',
 }
 
 def e1_check(cid, text, min_q, min_t, counters_q):
